@@ -365,10 +365,11 @@ def kron_obligations():
     obs = []
     bad = []
     for kinds in itertools.product(('dense', 'linop'), repeat=2):
-        for square in (True, False):
+        # (the third shape list: rectangular factors whose product is square -- still the dense routine)
+        for shapes in ([(2, 2), (3, 3)], [(2, 3), (3, 1)], [(2, 3), (3, 2)], [(2, 2), (1, 3)]):
+            square = all(m == n for (m, n) in shapes)
             rec = []
             ns = _load(rec)
-            shapes = [(2, 2), (3, 3)] if square else [(2, 3), (3, 1)]
             ops = [(DenseOp if kd == 'dense' else Op)('K%d' % i, s, kind=kd) for i, (s, kd) in enumerate(zip(shapes, kinds))]
             K = ns['KroneckerOperator'](*ops)
             want_shape = (shapes[0][0] * shapes[1][0], shapes[0][1] * shapes[1][1])
